@@ -23,12 +23,10 @@ NOT_APPLICABLE = {
     "C02": "not built yet (Engine S, see DESIGN.md section 5)",
     "C03": "not built yet",
     "C04": "not built yet",
-    "C05": "not built yet",
     "C07": "not built yet",
     "C08": "not built yet",
     "C09": "not built yet",
     "C10": "not built yet",
-    "C11": "not built yet",
     "C12": "not built yet",
     "C13": "not built yet",
     "C14": "not built yet",
@@ -40,7 +38,27 @@ NOT_APPLICABLE = {
     "C20": "not built yet",
 }
 
+def kprop(level_text, level_note, assumptions=None, engines=("kani",), trusted=None):
+    return {"engines": list(engines), "technique": K_TECH, "technique_short": K_SHORT,
+            "assumptions": K_FLOAT_ASSUME + (assumptions or []), "level_text": level_text, "level_note": level_note,
+            "trusted": trusted or []}
+
+
 PROPS = {
+    "C05": kprop(
+        "Bit-precise bounded model checking of the integer fast paths: for each encoding the real from_linear/into_linear impls and "
+        "the real lookup tables are executed symbolically over ALL f32 (2^32) / f64 (2^64) inputs and all codes: totality and "
+        "memory safety of the unchecked table read, saturation, monotonicity (adjacent-pair), error < 0.6 code against threshold "
+        "tables computed with mpmath from the published curve constants, decode->encode identity, decode tables vs the standard curve.",
+        "Trusted: Kani/CBMC/cadical; the mpmath evaluation of the published curves in kani/gen/c05.py (tables in kani/src/c05_tables.rs). "
+        "The generic float<->float curves (powf) are decided by Engine S, not here. 16-bit ProPhoto error/round-trip obligations are thorough-tier.",
+        ["reference thresholds come from the standards' constants, not from /repo"]),
+    "C11": kprop(
+        "Bit-precise bounded model checking of hue normalisation, equality and 8-bit conversion: all f32 (quick) / f64 (thorough) "
+        "angles with |x| <= 2^20 are one symbolic input; range, congruence modulo 360, equality under whole turns, inequality, "
+        "accessor consistency, u8 round trip and circle mapping are SAT-decided on the compiled code for all five hue types.",
+        "Trusted: Kani/CBMC/cadical. The trigonometric half (from_cartesian / into_cartesian direction) is decided by Engine S. "
+        "Obligations containing two float divisions are thorough-tier."),
     "C06": {
         "engines": ["kani"],
         "technique": K_TECH,
